@@ -274,7 +274,7 @@ mod verif_kani {
         core::mem::forget(g);
     }
 
-    //@harness props=C03,C04,C18,C12 kind=bounded fns=TokenBasedLuaGenerator::write_trivia,is_single_line_comment bound="original text: exactly 4 ASCII bytes over {-,[,=,a,\\n,space}; comment trivia with symbolic range; previous output empty; not inside a line comment" budget=300
+    //@harness props=C03,C04,C18,C12 kind=bounded fns=TokenBasedLuaGenerator::write_trivia,is_single_line_comment bound="original text: exactly 4 ASCII bytes over {-,[,=,a,\\n,space}; comment trivia with symbolic range; previous output empty; not inside a line comment" budget=400
     //@ desc="write_trivia(comment): I kept; output' == output ++ text; afterwards commenting iff the comment is not a long-bracket comment"
     #[kani::proof]
     #[kani::unwind(8)]
@@ -282,7 +282,7 @@ mod verif_kani {
         check_write_trivia(true, false);
     }
 
-    //@harness props=C03,C04,C18,C12 kind=bounded fns=TokenBasedLuaGenerator::write_trivia,is_single_line_comment bound="original text: exactly 4 ASCII bytes over {-,[,=,a,\\n,space}; comment trivia with symbolic range; previous output empty; inside a line comment" budget=300
+    //@harness props=C03,C04,C18,C12 kind=bounded fns=TokenBasedLuaGenerator::write_trivia,is_single_line_comment bound="original text: exactly 4 ASCII bytes over {-,[,=,a,\\n,space}; comment trivia with symbolic range; previous output empty; inside a line comment" budget=400
     //@ desc="write_trivia(comment) while a line comment is open: a long comment is preceded by a newline, a line comment is appended directly; I kept"
     #[kani::proof]
     #[kani::unwind(8)]
@@ -290,7 +290,7 @@ mod verif_kani {
         check_write_trivia(true, true);
     }
 
-    //@harness props=C03,C04,C18,C12 kind=bounded fns=TokenBasedLuaGenerator::write_trivia bound="original text: exactly 4 ASCII bytes over {-,[,=,a,\\n,space}; whitespace trivia with symbolic range; previous output empty; commenting flag both values (two calls of the checker)" budget=300
+    //@harness props=C03,C04,C18,C12 kind=bounded fns=TokenBasedLuaGenerator::write_trivia bound="original text: exactly 4 ASCII bytes over {-,[,=,a,\\n,space}; whitespace trivia with symbolic range; previous output empty; commenting flag both values (two calls of the checker)" budget=400
     //@ desc="write_trivia(whitespace): I kept; output' == output ++ text; a line comment stays open unless the whitespace contains a newline"
     #[kani::proof]
     #[kani::unwind(8)]
@@ -404,7 +404,7 @@ mod verif_kani {
         core::mem::forget(token);
     }
 
-    //@harness props=C03,C04,C12 kind=bounded fns=TokenBasedLuaGenerator::write_token_options bound="original text: exactly 3 ASCII bytes over {-,[,=,a,\\n,space}; token without trivia, byte range symbolic; recorded line symbolic <= current line + 3; previous output empty; no open comment" budget=300
+    //@harness props=C03,C04,C12 kind=bounded fns=TokenBasedLuaGenerator::write_token_options bound="original text: exactly 3 ASCII bytes over {-,[,=,a,\\n,space}; token without trivia, byte range symbolic; recorded line symbolic <= current line + 3; previous output empty; no open comment" budget=400
     //@ desc="write_token_options(token, space_check): I kept; output' == output ++ blanks ++ code[start..end]; the token's first byte is on its recorded line (padded with newlines) unless the writer is already past it; nothing inserted in the byte-for-byte situation"
     #[kani::proof]
     #[kani::unwind(8)]
@@ -421,7 +421,7 @@ mod verif_kani {
         check_write_token_plain_n::<8>(&[], false);
     }
 
-    //@harness props=C03,C04,C18,C12 kind=bounded fns=TokenBasedLuaGenerator::write_token_options,TokenBasedLuaGenerator::uncomment bound="as vk_tb_write_token_plain, with a line comment open" budget=300
+    //@harness props=C03,C04,C18,C12 kind=bounded fns=TokenBasedLuaGenerator::write_token_options,TokenBasedLuaGenerator::uncomment bound="as vk_tb_write_token_plain, with a line comment open" budget=400
     //@ desc="write_token_options while a line comment is open: a newline is written first, then padding up to the recorded line; I kept"
     #[kani::proof]
     #[kani::unwind(8)]
@@ -429,7 +429,7 @@ mod verif_kani {
         check_write_token_plain(&[], true);
     }
 
-    //@harness props=C03,C04,C02,C12 kind=bounded fns=TokenBasedLuaGenerator::write_token_options,TokenBasedLuaGenerator::needs_space bound="as vk_tb_write_token_plain, previous output = one symbolic byte of {a,-,[,=}" budget=300
+    //@harness props=C03,C04,C02,C12 kind=bounded fns=TokenBasedLuaGenerator::write_token_options,TokenBasedLuaGenerator::needs_space bound="as vk_tb_write_token_plain, previous output = one symbolic byte of {a,-,[,=}" budget=400
     //@ desc="write_token_options after previous output: a blank separates the token when last/first characters would fuse (O-lex) and space_check is on; nothing is inserted otherwise when nothing moved; I kept"
     #[kani::proof]
     #[kani::unwind(8)]
@@ -535,7 +535,7 @@ mod verif_kani {
         check_source_adjacent(code, 1);
     }
 
-    //@harness props=C03 kind=bounded fns=TokenBasedLuaGenerator::write_token_options,TokenBasedLuaGenerator::needs_space bound="ENUMERATED input: source `]]` with a token boundary in the middle (as in `t[u[1]]`)" budget=300
+    //@harness props=C03 kind=bounded fns=TokenBasedLuaGenerator::write_token_options,TokenBasedLuaGenerator::needs_space bound="ENUMERATED input: source `]]` with a token boundary in the middle (as in `t[u[1]]`)" budget=400
     //@ desc="byte-for-byte step on the source text `]]` (two closing brackets, e.g. t[u[1]]): nothing is inserted"
     #[kani::proof]
     #[kani::unwind(6)]
@@ -543,7 +543,7 @@ mod verif_kani {
         check_source_adjacent("]]", 1);
     }
 
-    //@harness props=C03 kind=bounded fns=TokenBasedLuaGenerator::write_token_options,TokenBasedLuaGenerator::needs_space bound="ENUMERATED input: source `..1` with a token boundary after `..` (as in \"a\"..1)" budget=300
+    //@harness props=C03 kind=bounded fns=TokenBasedLuaGenerator::write_token_options,TokenBasedLuaGenerator::needs_space bound="ENUMERATED input: source `..1` with a token boundary after `..` (as in \"a\"..1)" budget=400
     //@ desc="byte-for-byte step on the source text `..1` (concatenation operator directly followed by a number): nothing is inserted"
     #[kani::proof]
     #[kani::unwind(6)]
